@@ -12,4 +12,13 @@ CLAIMS = {
         'note': 'Trusted: CrossHair models of int/bytes, shims S1-S10, the RFC formulas written in harness/c09.py. Not decided: 4-octet time <-> datetime (C calls); '
                 'partial lengths beyond 2 chunks of <= 8 octets. Two genuine defects are recorded in known_findings.json (MPI(0), old-format width growth).'},
 }
+CLAIMS['C17'] = {
+    'technique': 'SMT translation of the disqualification predicate from source (all 2^11 x 2^11 issue/advisory pairs, 3 solvers) + bounded symbolic execution of PGPKey.verify and SignatureVerification',
+    'enginea': True,
+    'text': 'O17.1 translates causes_signature_verify_to_fail from its current source to SMT and proves, for every issue value and every advisory set, '
+            'that a disqualifying flag implies failure and failure is monotone under added advisory flags (unsat on z3 5.1, z3 4.8.12, cvc5). O17.2 runs the real '
+            'PGPKey.verify with the key-issue checks and the signature primitive replaced by arbitrary values and decides the verdict for every single issue x advisory x '
+            'crypto answer. O17.3 decides list coherence for 1..3 examined signatures over a 10-value issue basis. Bounded model checking.',
+    'note': 'Trusted: stubs of check_management/check_primitives/EdDSAPub.verify (arbitrary values), CrossHair, the translator (validated on all 2048 values against the real property each run). '
+            'Revoked is treated as advisory, as the library does. One genuine defect was repaired (fix: 63ecc59).'}
 NOT_APPLICABLE = {p: NB for p in ['C%02d' % i for i in range(1, 21)] if p not in CLAIMS}
